@@ -11,10 +11,16 @@ package main
 //     W            user WriteTo        -> ok | E
 //     R            user ReadFrom (non-blocking view) -> p | B | E
 //     C            user Close          -> ok | E
+//     K<k>         (redials only) carrier k's pending Close() returns
+//   turbotunnel redials <cap> <tokens>
+//     the same with carriers whose Close() takes time: it blocks until the script lets it return
+//     (K<k>); the carrier counts as closed -- pending calls on it fail, open/max/closes/oad change --
+//     only when Close has RETURNED.
 //   After every token the driver waits until every goroutine of the adapter is parked.
 //   A token whose precondition does not hold (no such pending call) answers "n".
-//   Result: <answers> ; dials=<n> open=<open carriers> max=<max simultaneously open>
-//           closes=<Close() calls per carrier> dialing=<a dialContext call is pending> left=<adapter goroutines still alive>
+//   Result: <answers> ; dials=<n> oad=<per carrier handed out by dialContext: the number of earlier
+//           carriers whose Close() had not returned at that moment> open=<open carriers>
+//           max=<max simultaneously open> closes=<completed Close() calls per carrier> dialing=<a dialContext call is pending> left=<adapter goroutines still alive>
 
 import (
 	"context"
@@ -44,6 +50,8 @@ type scenario struct {
 	maxOpen     int
 	delivered   int // packets handed to the adapter by successful carrier reads
 	written     [][]byte
+	slow        bool  // Close() of a carrier blocks until released by the script
+	oad         []int // per carrier handed out: earlier carriers whose Close had not returned then
 }
 
 type fakeConn struct {
@@ -52,7 +60,9 @@ type fakeConn struct {
 	readCue      chan bool
 	writeCue     chan bool
 	closedCh     chan struct{}
-	nclose       int
+	releaseCh    chan bool // slow mode: a pending Close() waits here
+	nclose       int       // Close() calls that have returned
+	closePending int       // Close() calls that are waiting for the script
 	readPending  bool
 	writePending bool
 }
@@ -125,6 +135,18 @@ func (f *fakeConn) WriteTo(p []byte, addr net.Addr) (int, error) {
 
 func (f *fakeConn) Close() error {
 	f.sc.mu.Lock()
+	slow := f.sc.slow
+	if slow {
+		f.closePending++
+	}
+	f.sc.mu.Unlock()
+	if slow {
+		<-f.releaseCh // parked ("chan receive") until the script lets Close return
+	}
+	f.sc.mu.Lock()
+	if slow {
+		f.closePending--
+	}
 	f.nclose++
 	first := f.nclose == 1
 	if first {
@@ -154,7 +176,15 @@ func (sc *scenario) dial(ctx context.Context) (net.PacketConn, error) {
 	if !ok {
 		return nil, errFake
 	}
-	f := &fakeConn{sc: sc, id: len(sc.carriers), readCue: make(chan bool), writeCue: make(chan bool), closedCh: make(chan struct{})}
+	// the moment a new carrier is handed out: every earlier carrier's Close must have returned
+	notClosed := 0
+	for _, g := range sc.carriers {
+		if g.nclose == 0 {
+			notClosed++
+		}
+	}
+	sc.oad = append(sc.oad, notClosed)
+	f := &fakeConn{sc: sc, id: len(sc.carriers), readCue: make(chan bool), writeCue: make(chan bool), closedCh: make(chan struct{}), releaseCh: make(chan bool)}
 	sc.carriers = append(sc.carriers, f)
 	sc.open++
 	if sc.open > sc.maxOpen {
@@ -201,13 +231,13 @@ func cue(ch chan bool, v bool) bool {
 	}
 }
 
-func runRedial(args []string) string {
+func runRedial(args []string, slow bool) string {
 	if len(args) < 2 {
 		return "!badcase"
 	}
 	toks := args[1]
 	base, _ := settle()
-	sc := &scenario{dialCue: make(chan bool)}
+	sc := &scenario{dialCue: make(chan bool), slow: slow}
 	conn := turbotunnel.NewRedialPacketConn(vaddr(1), vaddr(2), sc.dial)
 	if _, ok := settle(); !ok {
 		return "!unsettled"
@@ -235,6 +265,20 @@ func runRedial(args []string) string {
 				if t == "D0" {
 					closedKnown = true
 				}
+			}
+		case t[0] == 'K':
+			k, _ := strconv.Atoi(t[1:])
+			sc.mu.Lock()
+			var f *fakeConn
+			if k < len(sc.carriers) {
+				f = sc.carriers[k]
+			}
+			ok := f != nil && f.closePending > 0
+			sc.mu.Unlock()
+			if !ok {
+				ans = "n"
+			} else if !cue(f.releaseCh, true) {
+				return "!cue"
 			}
 		case t[0] == 'r' || t[0] == 'w':
 			parts := strings.Split(t[1:], ":")
@@ -318,7 +362,10 @@ func runRedial(args []string) string {
 		return "!unsettled"
 	}
 	sc.mu.Lock()
-	var open, closes []string
+	var open, closes, oad []string
+	for _, n := range sc.oad {
+		oad = append(oad, strconv.Itoa(n))
+	}
 	for _, f := range sc.carriers {
 		if f.nclose == 0 {
 			open = append(open, strconv.Itoa(f.id))
@@ -332,11 +379,15 @@ func runRedial(args []string) string {
 			return "!aliased-write"
 		}
 	}
-	res := wirePrint(out) + ";dials=" + strconv.Itoa(sc.dials) + " open=" + wirePrintSemi(open) + " max=" + strconv.Itoa(sc.maxOpen) +
+	res := wirePrint(out) + ";dials=" + strconv.Itoa(sc.dials) + " oad=" + wirePrintSemi(oad) + " open=" + wirePrintSemi(open) + " max=" + strconv.Itoa(sc.maxOpen) +
 		" closes=" + wirePrintSemi(closes) + " dialing=" + b01(sc.dialPending) + " left=" + strconv.Itoa(n-base)
 	sc.mu.Unlock()
 
 	// clean up so that goroutines of this case do not pile up (whatever cannot terminate stays)
+	sc.mu.Lock()
+	sc.slow = false
+	sc.mu.Unlock()
+	releaseCloses(sc)
 	conn.Close()
 	settle()
 	sc.mu.Lock()
@@ -351,6 +402,26 @@ func runRedial(args []string) string {
 	}
 	settle()
 	return res
+}
+
+// releaseCloses lets every Close() that is waiting for the script return.
+func releaseCloses(sc *scenario) {
+	for i := 0; i < 1000; i++ {
+		settle()
+		sc.mu.Lock()
+		var f *fakeConn
+		for _, g := range sc.carriers {
+			if g.closePending > 0 {
+				f = g
+				break
+			}
+		}
+		sc.mu.Unlock()
+		if f == nil {
+			return
+		}
+		cue(f.releaseCh, true)
+	}
 }
 
 func b01(b bool) string {
@@ -416,4 +487,155 @@ func runLeak(args []string) string {
 	}
 	after, _ := settle()
 	return "during=" + strconv.Itoa(during-base) + " after=" + strconv.Itoa(after-base)
+}
+
+// turbotunnel overlap <n> <side> <closems>: real time, no script.  dialContext hands out carriers
+// at once; each carrier's <side> (r: ReadFrom, w: WriteTo, b: both) fails after 3 ms, and its Close()
+// takes <closems> ms (like the teardown of a WebRTC peer connection).  dialContext records, at the
+// moment it hands out a carrier, how many earlier carriers' Close() has not RETURNED yet.  The
+// n+1st dial fails, which ends the dial loop.
+// Result: oad=<those numbers> unclosed=<carriers whose Close never returned within 2 s> left=<adapter goroutines>
+type timedConn struct {
+	m       *overlapMon
+	side    string
+	gone    chan struct{}
+	closems int
+}
+
+type overlapMon struct {
+	mu       sync.Mutex
+	carriers []*timedConn
+	done     []bool
+	oad      []int
+}
+
+func (t *timedConn) fail(failing bool) error {
+	if failing {
+		select {
+		case <-time.After(3 * time.Millisecond):
+			return errFake
+		case <-t.gone:
+			return errFakeClosed
+		}
+	}
+	<-t.gone
+	return errFakeClosed
+}
+
+func (t *timedConn) ReadFrom(p []byte) (int, net.Addr, error) {
+	return 0, nil, t.fail(t.side == "r" || t.side == "b")
+}
+
+func (t *timedConn) WriteTo(p []byte, addr net.Addr) (int, error) {
+	return 0, t.fail(t.side == "w" || t.side == "b")
+}
+
+func (t *timedConn) Close() error {
+	time.Sleep(time.Duration(t.closems) * time.Millisecond)
+	t.m.mu.Lock()
+	first := true
+	for i, c := range t.m.carriers {
+		if c == t {
+			first = !t.m.done[i]
+			t.m.done[i] = true
+		}
+	}
+	t.m.mu.Unlock()
+	if first {
+		close(t.gone)
+	}
+	return nil
+}
+
+func (t *timedConn) LocalAddr() net.Addr              { return vaddr(3000) }
+func (t *timedConn) SetDeadline(time.Time) error      { return nil }
+func (t *timedConn) SetReadDeadline(time.Time) error  { return nil }
+func (t *timedConn) SetWriteDeadline(time.Time) error { return nil }
+
+func runOverlap(args []string) string {
+	if len(args) < 3 {
+		return "!badcase"
+	}
+	n, _ := strconv.Atoi(args[0])
+	closems, _ := strconv.Atoi(args[2])
+	base, _ := settle()
+	m := &overlapMon{}
+	finished := make(chan struct{})
+	dial := func(ctx context.Context) (net.PacketConn, error) {
+		m.mu.Lock()
+		defer m.mu.Unlock()
+		if len(m.carriers) >= n {
+			select {
+			case <-finished:
+			default:
+				close(finished)
+			}
+			return nil, errFake
+		}
+		open := 0
+		for _, d := range m.done {
+			if !d {
+				open++
+			}
+		}
+		m.oad = append(m.oad, open)
+		t := &timedConn{m: m, side: args[1], gone: make(chan struct{}), closems: closems}
+		m.carriers = append(m.carriers, t)
+		m.done = append(m.done, false)
+		return t, nil
+	}
+	conn := turbotunnel.NewRedialPacketConn(vaddr(1), vaddr(2), dial)
+	stop := make(chan struct{})
+	go func() { // keep the writers supplied
+		for {
+			select {
+			case <-stop:
+				return
+			case <-time.After(time.Millisecond):
+				conn.WriteTo([]byte{1}, vaddr(5))
+			}
+		}
+	}()
+	select {
+	case <-finished:
+	case <-time.After(time.Duration(n*(closems+200)+5000) * time.Millisecond):
+		close(stop)
+		conn.Close()
+		return "!overlap-timeout"
+	}
+	close(stop)
+	// every Close that was started gets 2 s to return
+	deadline := time.Now().Add(2 * time.Second)
+	unclosed := 0
+	for {
+		m.mu.Lock()
+		unclosed = 0
+		for _, d := range m.done {
+			if !d {
+				unclosed++
+			}
+		}
+		m.mu.Unlock()
+		if unclosed == 0 || time.Now().After(deadline) {
+			break
+		}
+		time.Sleep(time.Millisecond)
+	}
+	conn.Close()
+	left := 0
+	for i := 0; i < 200; i++ {
+		sts := goroutineStates(redialMarker, redialMarker2)
+		left = len(sts) - base
+		if left <= 0 {
+			break
+		}
+		time.Sleep(time.Millisecond)
+	}
+	m.mu.Lock()
+	var oad []string
+	for _, v := range m.oad {
+		oad = append(oad, strconv.Itoa(v))
+	}
+	m.mu.Unlock()
+	return "oad=" + wirePrintSemi(oad) + " unclosed=" + strconv.Itoa(unclosed) + " left=" + strconv.Itoa(left)
 }
